@@ -6,7 +6,7 @@ CONSTANTS
   Timeouts = {2, 1000000}
   Thresholds = {1000, 999999999}
   Ages = {0, 1300}
-  PrevFees = 700
+  PrevFeeSet <- PFSmall
   AddFee = 1000
   Strict = TRUE
   Calls = 1
